@@ -237,6 +237,7 @@ class Ctx:
         self.obligations = []          # (theorem, axioms or None)
         self.proof_breaks = []         # strings
         self.mismatches = []
+        self.observing = False
         self.failures = []
         self.known_hits = {}
         self.evaluations = 0
@@ -267,6 +268,7 @@ class Ctx:
     # -- proof obligations
     def proof_obligations(self, module, theorems):
         """Build must have succeeded (setup or here); audit axioms of each theorem."""
+        self.observing = True       # from here on the harness observes the implementation
         ok, log = lean_build(clean=False)
         if not ok:
             self.proof_breaks.append('lake build failed: ' + log[-1500:])
